@@ -332,6 +332,17 @@ impl NetcodeServer {
 
         log::trace!("Connection request from Client {}", connect_token.client_id);
 
+        // A request carrying another token than the one this address is pending with starts a new handshake:
+        // the half-open entry must hold the keys and identity of the token the challenge above was issued for
+        if let Some(pending) = self.pending_clients.get(&addr) {
+            if pending.client_id != connect_token.client_id
+                || pending.receive_key != connect_token.client_to_server_key
+                || pending.send_key != connect_token.server_to_client_key
+            {
+                self.pending_clients.remove(&addr);
+            }
+        }
+
         let pending = self.pending_clients.entry(addr).or_insert_with(|| Connection {
             confirmed: false,
             sequence: 0,
@@ -468,6 +479,11 @@ impl NetcodeServer {
                     token_sequence,
                 } => {
                     let challenge_token = ChallengeToken::decode(token_data, token_sequence, &self.challenge_key)?;
+                    if challenge_token.client_id != pending.client_id || challenge_token.user_data != pending.user_data {
+                        // The echoed challenge was issued for another connect token than the one this address presented
+                        log::debug!("Ignored connection response from {}: challenge does not match the connect token.", addr);
+                        return Ok(ServerResult::None);
+                    }
                     let mut pending = self.pending_clients.remove(&addr).unwrap();
                     if find_client_slot_by_id(&self.clients, challenge_token.client_id).is_some() {
                         log::debug!(
